@@ -13,6 +13,7 @@
                               "ofd"    open file description number id, opened by THIS form
                c  value part: "none" | "cap" (sink id) | "nov" (raises on value output)
                               | "eof" (input channel that never produces a value)
+                              | "pipech" (the channel of the pipe from the previous form; piped forms only)
      owned   set of port indices whose file this form must close (the code's fops[i].File)
      ofds    sequence of open file descriptions [path, pos, r, w, app, open]; two redirections to the
              same path have two descriptions (own positions), n>&m shares one (shared position)
@@ -47,6 +48,7 @@
      * WriteValue to an "eof" channel (a port made by `<`, or the caller's input port): the reference
        only says what such a channel does when READ; raise (primary) or silently drop are accepted --
        a fault is not.
+     * WriteValue to the form's own input pipe (after n>&0 in a piped form): buffered or raised.
      * polling the value channel of anything but an "eof" channel (result "skip": not executed).
      * very large non-negative destinations (the table grows; the generator stays <= 64).
    The form's own head is the harness command vw:do (never raises) or, in V, a real builtin
@@ -64,11 +66,21 @@ ClosedPort == [f |-> "closed", id |-> 0, c |-> "nov"]
 
 Spec0 == [early |-> FALSE, m1raise |-> FALSE]
 
-InitForm(present) ==
-  [ports  |-> << [f |-> "rnull", id |-> 0, c |-> "eof"], [f |-> "cap", id |-> 1, c |-> "cap"], [f |-> "cap", id |-> 2, c |-> "cap"] >>,
-   owned  |-> {},
-   ofds   |-> <<>>,
-   files  |-> [i \in 1..2 |-> IF present[i] THEN [ex |-> TRUE, data |-> ABC] ELSE [ex |-> FALSE, data |-> <<>>]],
+UV == <<85, 86>>                \* what the previous form of the pipeline writes (piped forms)
+
+(* piped = FALSE: the form is a pipeline of its own; the caller's ports are a read-only null device
+                  and two capture sinks.
+   piped = TRUE : the form is the LAST form of `producer | form`: port 0 is the read end of the pipe
+                  from the producer (which writes UV and exits).  pipelineOp.exec makes the form own
+                  it (fops[0].File), so it is modelled as description 1 over the pseudo file 3,
+                  opened before the first redirection; its value channel "pipech" is the pipe's. *)
+InitForm(present, piped) ==
+  [ports  |-> << IF piped THEN [f |-> "ofd", id |-> 1, c |-> "pipech"] ELSE [f |-> "rnull", id |-> 0, c |-> "eof"],
+                 [f |-> "cap", id |-> 1, c |-> "cap"], [f |-> "cap", id |-> 2, c |-> "cap"] >>,
+   owned  |-> IF piped THEN {0} ELSE {},
+   ofds   |-> IF piped THEN << [path |-> 3, pos |-> 0, r |-> TRUE, w |-> FALSE, app |-> FALSE, open |-> TRUE] >> ELSE <<>>,
+   files  |-> [i \in 1..3 |-> IF i = 3 THEN [ex |-> piped, data |-> IF piped THEN UV ELSE <<>>]
+                              ELSE IF present[i] THEN [ex |-> TRUE, data |-> ABC] ELSE [ex |-> FALSE, data |-> <<>>]],
    caps   |-> [i \in 1..2 |-> [b |-> <<>>, v |-> <<>>]],
    exc    |-> "", log |-> <<>>, shared |-> FALSE, m1 |-> FALSE]
 
@@ -136,6 +148,7 @@ DoOp(s, o) ==
     [] o.t = "v" ->
          IF p.c = "cap" THEN [Log(s, "ok", "", <<>>) EXCEPT !.caps[p.id].v = Append(@, o.n)]
          ELSE IF p.c = "nov" THEN Log(s, "err", "", <<>>)
+         ELSE IF p.c = "pipech" THEN Log(s, "ok", "err", <<>>)   \* the form's own input pipe: Unspecified (buffered or raise)
          ELSE Log(s, "err", "ok", <<>>)   \* "eof" channel: Unspecified (raise or drop)
     [] o.t = "r" ->
          IF p.f = "rnull" THEN Log(s, "ok", "", <<>>)
@@ -167,14 +180,14 @@ ClosedNote(s) ==
           CASE p.f = "none" -> "none" [] p.f = "closed" -> "nofile" [] p.f = "ofd" -> "closed" [] OTHER -> "open"]
 
 (* what the caller can observe of a finished form *)
-Observe(s) == [exc |-> s.exc, log |-> s.log, files |-> s.files, caps |-> s.caps, closed |-> ClosedNote(s)]
+Observe(s) == [exc |-> s.exc, log |-> s.log, files |-> SubSeq(s.files, 1, 2), caps |-> s.caps, closed |-> ClosedNote(s)]
 
 (* the same, with the log split into parallel sequences (smaller JSON) *)
 Compact(ob) == [exc |-> ob.exc, r |-> [i \in DOMAIN ob.log |-> ob.log[i].r], a |-> [i \in DOMAIN ob.log |-> ob.log[i].a],
                 d |-> [i \in DOMAIN ob.log |-> ob.log[i].d], files |-> ob.files, caps |-> ob.caps, closed |-> ob.closed]
 
-RunBuiltin(present, rs, o, v) == Observe(FormEnd(DoBuiltin(Redirs(InitForm(present), rs, v), o)))
-Run(present, rs, os, v) == Observe(FormEnd(Ops(Redirs(InitForm(present), rs, v), os)))
+RunBuiltin(present, piped, rs, o, v) == Observe(FormEnd(DoBuiltin(Redirs(InitForm(present, piped), rs, v), o)))
+Run(present, piped, rs, os, v) == Observe(FormEnd(Ops(Redirs(InitForm(present, piped), rs, v), os)))
 
 (* ---- invariants of the form state (checked in MCPorts on every reachable state) *)
 OwnedOK(s) == \A i \in s.owned : Get(s, i).f = "ofd" /\ s.ofds[Get(s, i).id].open
